@@ -208,6 +208,10 @@ class FunctionVC:
 
     # -- name resolution ----------------------------------------------------
     def lookup_global(self, I, name):
+        genv = self.c.ghost.get('env')
+        if genv and name in genv:
+            v = genv[name]
+            return v(I) if callable(v) and not isinstance(v, V) else v
         if name in self.reg.spec_prims:
             return VFunc(name, impl=self.reg.spec_prims[name])
         if name in self.reg.spec_funcs:
@@ -317,6 +321,12 @@ class FunctionVC:
         return f(t, z3.IntVal(conc_oid(c)))
 
     def any_method(self, I, recv, name, args, kwargs):
+        t = recv.t
+        if name in ('replace', 'startswith', 'endswith', 'strip', 'lower', 'find', 'split'):
+            if I.decide(z3.Or(Val.is_str(t), Val.is_tok(t)), 'any-is-str'):
+                st = z3.If(Val.is_tok(t), TokenSort.s(Val.t(t)), Val.s(t))
+                return models.str_method(I, z3.simplify(st), name, args, kwargs)
+            raise Raised(VExc(AttributeError, [VStr(name)]))
         raise Unsupported('method %s on a dynamically typed value' % name)
 
     def conc_dict_get(self, I, recv, args):
@@ -423,6 +433,9 @@ class FunctionVC:
 
     def run_path(self, I, c):
         env = self.entry_params(I, c)
+        hook = c.ghost.get('entry')
+        if hook:
+            hook(I, env)
         I.env = dict(env)
         I.inputs = dict(env)
         for r in c.requires:
